@@ -163,7 +163,12 @@ def order_rule(repo, res, rule="ORDER"):
     res.check(not idx, rule, f"{rule}:no-positional-statement-access", "no statements[i] access in from_grammar", f.loc())
     # call variants are aggregated in file order (not permuted by the property)
     f2 = repo.fn("parse::Grammar::iter_call_variants")
-    res.check(f2 is not None and "self.statements.iter().filter_map" in "".join(repo.text(f2.file, f2.body).split()), rule, f"{rule}:call-variants-in-file-order", "call variants are taken in file order", f2.loc() if f2 else "")
+    ok2 = False
+    if f2 is not None:
+        meths = {n["method"] for n in A.walk(f2.body) if n["k"] == "MethodCall"}
+        reads = any(n["k"] == "Field" and str(n.get("member")) == "statements" for n in A.walk(f2.body))
+        ok2 = reads and not (meths & {"rev", "reverse", "sort", "sort_by", "sort_by_key", "sort_unstable", "sort_unstable_by", "sort_unstable_by_key", "sorted", "sorted_by", "sorted_by_key", "swap", "rotate_left", "rotate_right", "skip", "take", "step_by", "dedup", "unique"})
+    res.check(ok2, rule, f"{rule}:call-variants-in-file-order", "call variants are taken in file order", f2.loc() if f2 else "")
 
 
 def neutral_rule(repo, res, rule="NEUTRAL"):
@@ -182,8 +187,12 @@ def neutral_rule(repo, res, rule="NEUTRAL"):
     if f is not None:
         for n in A.walk(f.body):
             if n["k"] == "Local" and n.get("init") is not None and "tag(\"::=\")" in repo.text(f.file, n["init"]) and "tag(\"=\")" in repo.text(f.file, n["init"]):
-                names = [x for x, _ in A.pat_bindings(n["pat"])]
-                ok = names == ["input"] and "alt(" in repo.text(f.file, n["init"])
+                # `let (rest, _) = alt((tag("::="), tag("=")))(..)?`: only the remaining input is bound, the operator's text is dropped
+                pt = n["pat"]
+                while pt["k"] == "PType":
+                    pt = pt["pat"]
+                dropped = pt["k"] == "PTuple" and len(pt["elems"]) == 2 and (pt["elems"][1]["k"] == "PWild" or (pt["elems"][1]["k"] == "PIdent" and pt["elems"][1]["name"].startswith("_")))
+                ok = dropped and "alt(" in repo.text(f.file, n["init"])
     res.check(ok, rule, f"{rule}:define-operator", "`::=` and `=` are alternatives of one alt() whose value is discarded", f.loc() if f else "")
     f = repo.fn("parse::end_of_statement")
     ok = False
